@@ -7,7 +7,7 @@ use serde_json::json;
 
 pub fn run(ctx: &mut Ctx) {
     let prop = "C14";
-    ctx.ev.rule = "generated DSL-expressible transaction lists (seven kinds, decimals of every scale 0–28 and mantissas up to 2^96−1, ISO codes incl. 0- and 3-decimal currencies, zero and non-zero optional clauses with and without a foreign label): (1) real writer output == Lean writer model, byte for byte; (2) parse(write(l)) == l up to the currency label of zero fees/taxes; (3) write is idempotent through parse; (4) serde JSON round trip is the identity; (5) the report of l, of parse(write(l)) and of its JSON round trip are equal (when l is a computable ledger). Non-trivial = lists with a non-GBP amount and a decimal of scale ≥ 5; distinct by written text.".into();
+    ctx.ev.rule = "generated DSL-expressible transaction lists (seven kinds, decimals of every scale 0–28 and mantissas up to 2^96−1, ISO codes incl. 0- and 3-decimal currencies and, for one amount in six, any code the currency type accepts (withdrawn and superseded ones included), zero and non-zero optional clauses with and without a foreign label): (1) real writer output == Lean writer model, byte for byte; (2) parse(write(l)) == l up to the currency label of zero fees/taxes; (3) write is idempotent through parse; (4) serde JSON round trip is the identity; (5) the report of l, of parse(write(l)) and of its JSON round trip are equal (when l is a computable ledger). Non-trivial = lists with a non-GBP amount and a decimal of scale ≥ 5; distinct by written text.".into();
     let _ = prop;
     let mut r = Rng::new(ctx.seed ^ 0xC14);
     let n = ctx.n(600, 40_000);
